@@ -62,6 +62,10 @@ func (p *probe) violation(key, what string) {
 // would otherwise dump it 1024 times); deeper frames are still checked for "failed => reverted".
 const dumpDepthLimit = 8
 
+// dumpCountLimit bounds the number of frames per run whose entry world is dumped (a program that calls itself
+// twice per frame opens thousands of frames); later frames are still checked for "failed => reverted".
+const dumpCountLimit = 48
+
 func (p *probe) Snapshot() int {
 	id := p.StateDB.Snapshot()
 	p.nsnap++
@@ -72,7 +76,7 @@ func (p *probe) Snapshot() int {
 	}
 	// The outermost snapshot is covered by the top-level oracle (delta against the pre-state must be empty,
 	// root must be the pre-state root); dumping it again here would only repeat that work for every program.
-	if !(p.nsnap == 1 && rec.depth == 1) && rec.depth <= dumpDepthLimit {
+	if !(p.nsnap == 1 && rec.depth == 1) && rec.depth <= dumpDepthLimit && p.ndumps < dumpCountLimit {
 		rec.d = takeDelta(p.StateDB, p.ref)
 		p.ndumps++
 	}
